@@ -14,11 +14,15 @@ type c02Rec struct {
 	mu       *sync.Mutex // the handler's outMu (the harness is in-package)
 	writes   []string
 	unlocked int // Write calls that happened while the mutex was not held
+	freed    int // Write calls whose argument lives in a buffer that is already back in the pool
 }
 
 func (w *c02Rec) Write(p []byte) (int, error) {
 	if w.mu != nil && !vxLockHeld(w.mu) {
 		w.unlocked++
+	}
+	if vxInPool(p) {
+		w.freed++
 	}
 	w.writes = append(w.writes, string(p))
 	return len(p), nil
@@ -156,6 +160,7 @@ func H_C02_ownership() {
 	l.Info(vxString(1), "k", 2)
 	n := vxFrameWrites()
 	vxAssert(n == 0, "C02: handling a record stored into shared state other than its own pooled buffer")
+	vxAssert(w.freed == 0, "C02: the line was handed to Write from a buffer already returned to the pool (another goroutine may be filling it)")
 	vxReach("record handled under the ownership monitor")
 }
 
